@@ -114,6 +114,58 @@ Theorem C17_client_content_matches :
 Proof. exact client_content_matches. Qed.
 Print Assumptions C17_client_content_matches.
 
+(* The op alphabet of all theorems above includes the FAILING FINAL RENAME: TInsertWithXdev
+   (a complete, matching upload whose move from the temp file to a/b/<id> is refused: EXDEV when
+   the shard directory is a mount point of its own, EACCES, ENOSPC) and TInsertFileCopy
+   (insert_file's rename refused, fall-back copy completing or stopping part-way), at any
+   point of any history.  The next two statements say what such a step itself leaves. *)
+
+(* An upload whose final rename fails is answered with an error and leaves nothing new: no
+   temp file, no file that was not there before, no id newly reported present, no content
+   that was not served before (evictions made for it may have removed entries). *)
+Theorem C17_failed_rename_leaves_nothing :
+  forall (digest : bytes -> id) (s0 : tst) (ops : list top) (i : id) (b : bytes),
+  tinv digest s0 ->
+  let s := trun digest s0 ops in
+  exists s' r, tc_insert_with_xdev digest s i b = (s', r, None) /\ r <> TOk /\
+    handles (lru s') = [] /\
+    (forall k, In k (keys (files (lru s'))) -> In k (keys (files (lru s)))) /\
+    (forall j, tc_contains s' j = true -> tc_contains s j = true) /\
+    (forall j c, content_of s' j = Some c -> content_of s j = Some c).
+Proof. exact failed_rename_leaves_nothing. Qed.
+Print Assumptions C17_failed_rename_leaves_nothing.
+
+(* insert_file whose rename is refused and whose fall-back copy stops part-way: error, nothing
+   new, and nothing at all under the id of the archive (the truncated copy is removed). *)
+Theorem C17_failed_copy_leaves_nothing :
+  forall (digest : bytes -> id) (s0 : tst) (ops : list top) (b : bytes),
+  tinv digest s0 ->
+  let s := trun digest s0 ops in
+  exists s' r, tc_insert_file_copy digest s b false = (s', r, None, []) /\ r <> TOk /\
+    handles (lru s') = [] /\
+    (forall k, In k (keys (files (lru s'))) -> In k (keys (files (lru s)))) /\
+    (forall j, tc_contains s' j = true -> tc_contains s j = true) /\
+    (forall j c, content_of s' j = Some c -> content_of s j = Some c) /\
+    (blen b <= cap (lru s) -> valid_id (digest b) = true ->
+       tc_contains s' (digest b) = false /\ content_of s' (digest b) = None).
+Proof. exact failed_copy_leaves_nothing. Qed.
+Print Assumptions C17_failed_copy_leaves_nothing.
+
+(* KNOWN FINDING C17-K1 (open on the current tree, see known/C17.json): the fault space above
+   contains crashes during an upload and failing renames, but NOT a crash in the middle of
+   insert_file's fall-back copy (only reachable when the rename of the packaged archive into
+   the cache is refused, e.g. a shard directory on a file system of its own): that copy writes
+   straight to the final path.  Full statement that would be wanted: [tinv] is preserved by
+   [tc_crash_insert_file_copy] like by every operation of [top].  It is refuted: *)
+Theorem C17_crash_in_fallback_copy_refuted :
+  exists (digest : bytes -> id) (s0 : tst) (b : bytes) (k : nat) (c : N),
+    tinv digest s0 /\
+    let s := tc_crash_insert_file_copy digest s0 b k c in
+    tc_contains s (digest b) = true /\
+    exists served, content_of s (digest b) = Some served /\ digest served <> digest b.
+Proof. exact crash_in_fallback_copy_refuted. Qed.
+Print Assumptions C17_crash_in_fallback_copy_refuted.
+
 (* ---------- non-vacuity ---------- *)
 
 (* the hypothesis [tinv] holds for a freshly created cache directory *)
@@ -159,4 +211,12 @@ Example ex_client :
   snd (cstep toy_digest s (CGet (toy_digest [1; 2; 3])))
     = TORes TOk (Some (key_path (toy_digest [1; 2; 3]))) [[1; 2; 3]; toy_digest [1; 2; 3]] /\
   weak s = [([119; 49], toy_digest [1; 2; 3])].
+Proof. vm_compute. repeat split. Qed.
+
+Example ex_failed_rename :
+  let s := trun toy_digest (tc_empty 100) [TInsertWith (toy_digest [1; 2; 3]) [1; 2; 3] false] in
+  snd (tstep toy_digest s (TInsertWithXdev (toy_digest [4; 5]) [4; 5])) = TORes TIoErr None [] /\
+  tc_contains (fst (tstep toy_digest s (TInsertWithXdev (toy_digest [4; 5]) [4; 5]))) (toy_digest [4; 5]) = false /\
+  snd (tstep toy_digest s (TInsertFileCopy [4; 5] false)) = TORes TIoErr None [] /\
+  snd (tstep toy_digest s (TInsertFileCopy [4; 5] true)) = TORes TOk (Some (key_path (toy_digest [4; 5]))) [toy_digest [4; 5]].
 Proof. vm_compute. repeat split. Qed.
